@@ -535,7 +535,7 @@ def wrappers(ctx):
         and is_name(r[0].value.value, u.params[0])
     ctx.ob(ok, u, 'Val yields the wrapped value itself: %s' % [norm(x) for x in r])
     iu = ctx.unit('core.Val.__init__')
-    st = [n for n in iu.own_nodes() if isinstance(n, ast.Assign)]
+    st = [n for n in iu.own_nodes() if isinstance(n, ast.Assign) and isinstance(n.targets[0], ast.Attribute)]
     ok = len(st) == 1 and isinstance(st[0].targets[0], ast.Attribute) and st[0].targets[0].attr == 'value' \
         and is_name(st[0].value, iu.params[1])
     ctx.ob(ok, iu, 'Val stores its argument unchanged: %s' % [norm(x) for x in st])
